@@ -19,6 +19,9 @@ const ID = "C18"
 type Case struct {
 	S    gen.Str `json:"s"`
 	Wrap string  `json:"wrap,omitempty"` // "", "stringer", "error", "gostringer", "pstringer", "bytes-v"
+	// To, if set and the wrapping is mutable, is the text the item is changed to behind the cell's back,
+	// followed by Cell.Update(): height, lines and width must follow the new text.
+	To *gen.Str `json:"to,omitempty"`
 }
 
 func max(a, b int) int {
@@ -159,6 +162,71 @@ func CheckCase(c Case) *ev.Violation {
 			return ev.V("line %q is %d cells wide but the cell's width is %d", want[i], lw[i].W, wantW)
 		}
 	}
+	if c.To != nil && live.St != nil {
+		live.St.S, live.St.G, live.St.E = string(*c.To), string(*c.To), string(*c.To)
+		text = gen.TextForm(it, live)
+		want = length.Lines(text)
+		wantW = 0
+		for _, l := range want {
+			wantW = max(wantW, length.StringCells(l))
+		}
+		cell.Update()
+		if v := check("after mutation and Update", &cell); v != nil {
+			return v
+		}
+		tc.Update()
+		if v := check("cell in table after mutation and Update", tc); v != nil {
+			return v
+		}
+		if _, err := tt.Render(); err != nil {
+			return ev.V("text render after Update failed: %v", err)
+		}
+		lw = texttable.CellPropertyExtractLinesWidths(tc)
+		if len(lw) != len(want) {
+			return ev.V("after mutation, Update and a new render the text renderer holds %d per-line widths for a cell of %d lines (text %q)", len(lw), len(want), text)
+		}
+		for i := range want {
+			if lw[i].S != want[i] || lw[i].W != length.StringCells(want[i]) {
+				return ev.V("after mutation, Update and a new render the text renderer holds line %q width %d, want %q width %d", lw[i].S, lw[i].W, want[i], length.StringCells(want[i]))
+			}
+		}
+	}
+	// layout and emit pass agree on every render: the cell joins a table that has been rendered before,
+	// without changing the table's shape (a short row gets its missing cell)
+	t2 := texttable.New()
+	t2.AddHeaders("h", "i")
+	row := t2.AppendNewRow()
+	row.Add(tabular.NewCell("x"))
+	if _, err := t2.Render(); err != nil {
+		return ev.V("text render failed: %v", err)
+	}
+	row.Add(tabular.NewCell(gen.Materialise(it).V))
+	again, err := t2.Render()
+	if err != nil {
+		return ev.V("second text render failed: %v", err)
+	}
+	t3 := texttable.New()
+	t3.AddHeaders("h", "i")
+	t3.AddRowItems("x", gen.Materialise(it).V)
+	fresh, _ := t3.Render()
+	if again != fresh {
+		return ev.V("a table rendered, completed by one cell (text %q) and rendered again differs from the same table rendered once\n--- again\n%s--- fresh\n%s", text, again, fresh)
+	}
+	additive := true
+	fl := gen.Materialise(it)
+	for _, l := range length.Lines(gen.TextForm(it, fl)) {
+		if length.StringCells(" "+l+" ") != length.StringCells(l)+2 {
+			additive = false
+		}
+	}
+	if additive {
+		ls := strings.Split(strings.TrimSuffix(again, "\n"), "\n")
+		for i, l := range ls {
+			if length.StringCells(l) != length.StringCells(ls[0]) {
+				return ev.V("re-rendered table is not a rectangle: line %d is %d cells wide, line 0 is %d\n%s", i, length.StringCells(l), length.StringCells(ls[0]), again)
+			}
+		}
+	}
 	return nil
 }
 
@@ -198,6 +266,16 @@ func Classify(c Case) (bool, interface{}, []string) {
 	cl = append(cl, gen.ClassOf(s)...)
 	if c.Wrap != "" {
 		cl = append(cl, "wrap-"+c.Wrap)
+	}
+	if c.To != nil {
+		switch {
+		case *c.To == "" && s != "":
+			cl = append(cl, "mutated-to-empty")
+		case s == "" && *c.To != "":
+			cl = append(cl, "mutated-from-empty")
+		default:
+			cl = append(cl, "mutated")
+		}
 	}
 	return nt, nil, cl
 }
